@@ -12,6 +12,10 @@ R02.2 "the 8-, 12- or 16-byte tag": in every body that takes (auth_tag, auth_tag
       auth_tag_len = L for L in {8, 12, 16} the stores that remain reachable and whose address derives from
       auth_tag are at constant offsets, unmasked, and cover exactly the bytes [0, L) - no byte beyond the tag
       buffer is written and none of its bytes is left unwritten.
+R02.5 "the same for separate and in-place buffers": with the input and output pointers equated, no load through the
+      input argument reads bytes that a store through the output argument has already written on some path to it
+      (symbolic linear address forms with lockstep-aware joins, lib/inplace.py); pairs whose symbolic parts differ
+      are not judged.
 R02.3 instance floor: the four families are all offered by every GCM dispatcher of the one-shot / update /
       finalize interfaces; 96 bodies carry the argument list of aes/aes_gcm.c.
 """
@@ -22,6 +26,7 @@ import align
 import build
 import c19
 import cands
+import inplace
 import ir
 import par
 import valset
@@ -99,6 +104,21 @@ def worker(lib, objname, extra):
                 "`%s` demands %d-byte alignment of %s; GCM promises any buffer alignment%s" % (i.text.strip(), nd, "memory addressed through the caller's %s pointer (%s)" % (free[r], r.lower()) if r else "an address the provenance analysis cannot classify", " for the AAD also in the non-temporal variants" if nt else ""), i.addr, key[1])
         else:
             out["align_ok"] += 1
+        # R02.5 in-place hazard
+        if "in" in names and "out" in names and not names["in"].startswith("ARG@") and not names["out"].startswith("ARG@"):
+            out["ip_bodies"] = out.get("ip_bodies", 0) + 1
+            try:
+                ipr = inplace.analyse(f, names["in"], names["out"], p1)
+            except RuntimeError as e:
+                out["broken"].append(str(e))
+                ipr = None
+            if ipr is not None:
+                out["ip_pairs"] = out.get("ip_pairs", 0) + ipr.compared
+                if ipr.hazards:
+                    l, st_, d = ipr.hazards[0]
+                    add("R02.5", name, "in-place", "`%s` reads the input at an address that `%s` (%s) has already written through the output pointer when in == out (%s; %d such pair(s)): an in-place call processes its own output instead of the caller's data" % (l.text.strip(), st_.text.strip(), o.line_of(key[1], st_.addr), d, len(ipr.hazards)), l.addr, key[1])
+                else:
+                    out["ip_ok"] = out.get("ip_ok", 0) + 1
         # R02.2
         if "auth_tag" in names and "auth_tag_len" in names:
             out["tag_bodies"] += 1
@@ -187,6 +207,8 @@ def run(chk):
         chk.obligation("R02.3", ok, key=("families", iface), sample={"interface": iface, "families": sorted(fams[iface])})
         if not ok:
             chk.broke("dispatcher of %s offers only %s" % (iface, sorted(fams[iface])))
+    nbind = cands.binding_rule(chk, "R02.4", lib, ['_aes_gcm_'])
+    chk.floor("implementations checked for binding ownership", nbind, 1)
     objs = sorted({lib._by_name[c][0] for c in cand if c in lib._by_name})
     res = par.map_objects(lib, worker, objs, extra={"cand": cand})
     tot = collections.Counter()
@@ -194,6 +216,8 @@ def run(chk):
         r = res[objname]
         for k in ("bodies", "sinks", "buf_acc", "tag_bodies", "tag_cases", "tag_ok", "align_ok"):
             tot[k] += r[k]
+        for k in ("ip_bodies", "ip_pairs", "ip_ok"):
+            tot[k] += r.get(k, 0)
         for b in r["broken"]:
             chk.broke(b)
         for fd in r["findings"]:
@@ -203,6 +227,10 @@ def run(chk):
                 chk.samples.append(dict(rule="R02.2", **s))
     chk.obligations["R02.1"] = [tot["bodies"], tot["align_ok"]]
     chk.obligations["R02.2"] = [tot["tag_cases"], tot["tag_ok"]]
+    chk.obligations["R02.5"] = [tot["ip_bodies"], tot["ip_ok"]]
+    chk.floor("bodies analysed for in-place hazards", tot["ip_bodies"], 64)
+    chk.floor("output-store / input-load pairs with a common symbolic address compared", tot["ip_pairs"], 10000)
+    chk.extra["in_place_pairs_compared"] = tot["ip_pairs"]
     for c in cand:
         chk.distinct.add(("body", c))
     chk.floor("GCM bodies analysed", tot["bodies"], 96)
